@@ -6,8 +6,13 @@ M2  MC_Wrap emits every class string; each is made concrete (distinct code point
     drawn from per-class pools that start at the boundaries of the tree's width table).
 M3  Trace_Wrap: each input is wrapped by the real Text.wrap; what every returned line shows
     through Text.render goes to TLC, which computes the effective input styles from base + spans,
-    identifies the output characters and judges WrapOK; a difference from RefWrap alone is DRIFT."""
+    identifies the output characters and judges WrapOK; a difference from RefWrap alone is DRIFT.
+A case is what the model sees (text, base style, spans with an attribute+colour and a hyperlink channel, width, the
+effective justify / overflow / no_wrap / tab size) plus a *delivery* ("how", see deliver()) the model does not see: the way
+the Text is built, the form of the styles, where each option is given (argument, Text attribute, both, default), the
+entry point (Text.wrap or the console's rendering of the Text) and earlier wrap calls on the same object."""
 import io
+import os
 import re
 import threading
 
@@ -16,19 +21,63 @@ from engine.harness import Check
 
 JUSTIFY = ["default", "left", "center", "right", "full"]
 OVERFLOW = ["fold", "crop", "ellipsis", "ignore"]
-MODES = [(o, nw) for o in OVERFLOW for nw in (False, True) if not (o == "ignore" and nw)]
+MODES = [(o, nw) for o in OVERFLOW for nw in (False, True)]
 CLASSES = "NWZSTL"
 WRONG = {"chopdrop": ("InvA", "InvB"), "notrunc": ("InvB",), "styleslip": ("InvC",), "breakfit": ("InvD",)}
 NSTY = 4
+NLINK = 2
+# every other character Python counts as white space (str.isspace / regex \s) that the Text constructor keeps
+# (VT FF CR are stripped by it): zero cells (FS GS RS US NEL LS PS), one cell, two cells (IDEOGRAPHIC SPACE)
+OTHER_WS = [0x1C, 0x1D, 0x1E, 0x1F, 0x85, 0xA0, 0x1680] + list(range(0x2000, 0x200B)) + [0x2028, 0x2029, 0x202F, 0x205F, 0x3000]
+LINE_BOUNDARY_WS = ["\x1c", "\x1d", "\x1e", "\x85", "\u2028", "\u2029"]
+ATTRS = ["bold", "italic", "underline", "strike"]
+COLS = ["red", "green", "blue", "yellow"]
+URLS = {1: "https://example.org/a", 2: "https://example.org/b?x=1;y=2"}      # ';' and '=' are legal in a link target
+TABS = [8, 8, 8, 4, 4, 2, 1, 3, 5, 6, 7, 16]
 
 
 def env():
-    from drivers import c05
-    E = c05.env()
-    E["observe"] = c05.observe
-    E["mk"] = c05.mk
+    """Everything taken from the tree under test.  A style of the model is a pair (k, l): k in 0..4 sets attribute k
+    and colour k, l in 0..2 sets hyperlink l.  Each pair exists in the three forms a user can write a style in:
+    a Style object, a style definition string, the name of a style of the console's theme."""
+    from rich.console import Console
+    from rich.style import Style
+    from rich.text import Text, Span
+    from rich.theme import Theme
+    from rich.cells import get_character_cell_size
+    obj, defs, names = {}, {}, {}
+    for k in range(NSTY + 1):
+        for l in range(NLINK + 1):
+            kw = {}
+            words = []
+            if k:
+                kw[ATTRS[k - 1]] = True
+                kw["color"] = COLS[k - 1]
+                words += [ATTRS[k - 1], COLS[k - 1]]
+            if l:
+                kw["link"] = URLS[l]
+                words += ["link", URLS[l]]
+            obj[(k, l)] = Style(**kw)
+            defs[(k, l)] = " ".join(words) if words else "none"
+            names[(k, l)] = "c02.k%dl%d" % (k, l)
+    theme = Theme({names[kl]: obj[kl] for kl in obj})
+    console = Console(file=io.StringIO(), width=200, theme=theme)
+    from rich.segment import Segment
+    consoles = {}
+
+    def console_for(tab):                  # Text.__rich_console__ takes the tab size from the console
+        if tab not in consoles:
+            consoles[tab] = Console(file=io.StringIO(), width=200, theme=theme, tab_size=tab)
+        return consoles[tab]
+    E = dict(Console=Console, Style=Style, Text=Text, Span=Span, Segment=Segment, w=get_character_cell_size, console=console,
+             console_for=console_for, obj=obj, defs=defs, names=names, url_id={v: k for k, v in URLS.items()})
     E["pools"] = pools(E)
     return E
+
+
+def style(E, k, l, rep):
+    """rep: 0 Style object, 1 definition string, 2 theme style name"""
+    return (E["obj"], E["defs"], E["names"])[rep][(k, l)]
 
 
 # ---- characters ---------------------------------------------------------------------------------
@@ -88,16 +137,24 @@ def pools(E):
         if len(v) < 40:
             raise RuntimeError("class pool %s of the tree under test is too small (%d)" % (k, len(v)))
     P["S"], P["T"], P["L"] = [32], [9], [10]
+    # the other white space characters, as the tree under test sees them (they must be white space for Python,
+    # survive the constructor, and have a width in 0..2)
+    from rich.control import strip_control_codes
+    P["U"] = [cp for cp in OTHER_WS if chr(cp).isspace() and strip_control_codes(chr(cp)) == chr(cp) and w(chr(cp)) in (0, 1, 2)]
     return P
 
 
-def concretize(E, classes, variant):
-    """class string -> text with a distinct code point at every visible position"""
+def concretize(E, classes, variant, rng=None):
+    """class string -> text with a distinct code point at every visible position; with rng every space becomes
+    one of the other white space characters (now and then it stays a space)"""
     P = E["pools"]
     used = {}
     out = []
     for c in classes:
         pool = P[c]
+        if c == "S" and rng is not None:
+            out.append(chr(rng.choice(P["U"] + [0x3000, 0x3000, 0xA0, 0xA0, 0x1C, 0x85, 0x2028, 32, 32])))
+            continue
         if len(pool) == 1:
             out.append(chr(pool[0]))
             continue
@@ -107,15 +164,32 @@ def concretize(E, classes, variant):
     return "".join(out)
 
 
-def rspans(rng, n, kmax):
-    """random overlapping / nested / duplicate / empty spans (stylize order = precedence)"""
+def rsty(rng, links):
+    """style of one span: mostly an attribute+colour style, with links now and then a hyperlink (alone or combined),
+    rarely the null style"""
+    if not links:
+        return rng.randint(1, NSTY), 0
+    r = rng.random()
+    if r < 0.55:
+        return rng.randint(1, NSTY), 0
+    if r < 0.75:
+        return 0, rng.randint(1, NLINK)
+    if r < 0.97:
+        return rng.randint(1, NSTY), rng.randint(1, NLINK)
+    return 0, 0
+
+
+def rspans(rng, n, kmax, links=False, wild=False):
+    """random overlapping / nested / duplicate / empty spans (list order = precedence).  wild: also offsets counted
+    from the end (negative, as stylize() takes them) and ends far beyond the text"""
     spans = []
     for _ in range(rng.randint(0, kmax)):
         r = rng.random()
         if spans and r < 0.15:
-            a, b, _k = rng.choice(spans)                          # duplicate range, maybe another style
+            a, b = rng.choice(spans)[:2]                          # duplicate range, maybe another style
         elif spans and r < 0.35:
-            pa, pb, _k = rng.choice(spans)                        # nested in / overlapping an earlier one
+            pa, pb = rng.choice(spans)[:2]                        # nested in / overlapping an earlier one
+            pa, pb = max(0, pa), max(0, pb)
             a = rng.randint(min(pa, n), min(max(pa, pb), n))
             b = rng.randint(a, min(n + 1, max(pb, a) + rng.randint(0, 3)))
         elif r < 0.45:
@@ -124,92 +198,506 @@ def rspans(rng, n, kmax):
         else:
             a = rng.randint(0, n)
             b = min(n + 2, a + rng.choice([1, 1, 2, 3, rng.randint(1, max(1, n))]))
-        spans.append([a, b, rng.randint(1, NSTY)])
+        if wild:
+            r = rng.random()
+            if r < 0.15:
+                a = a - n if a < n else -rng.randint(1, n + 3)    # the same start counted from the end / before the text
+            elif r < 0.3 and 0 < b < n:
+                b = b - n                                         # the same end counted from the end
+            elif r < 0.4:
+                b = b + rng.choice([5, 100, 10 ** 6])
+        k, l = rsty(rng, links)
+        spans.append([a, b, k, l])
     return spans
 
 
-def mkcase(E, s, base, spans, width, justify, overflow, no_wrap, tab):
+def mkcase(E, s, base, spans, width, justify, overflow, no_wrap, tab, lbase=0, how=None):
+    """spans may be [a, b, k] or [a, b, k, l]; how = delivery (None: everything the plain way, see deliver())"""
     w = E["w"]
-    return dict(str=[[ord(c), w(c)] for c in s], base=base, spans=spans, width=width, justify=justify,
-                overflow=overflow, no_wrap=no_wrap, tab=tab)
+    how = dict(how or {})
+    ovarg = overflow if how.get("ov", "arg") in ("arg", "both") or how.get("entry") == "console" else "none"
+    return dict(str=[[ord(c), w(c)] for c in s], base=base, lbase=lbase, spans=[(list(x) + [0])[:4] for x in spans],
+                width=width, justify=justify, overflow=overflow, no_wrap=no_wrap, tab=tab, ovarg=ovarg, how=how)
+
+
+# ---- delivery: how the text, its styles and the options reach Text.wrap ---------------------------------------------
+# All of this is invisible to the model: a case means the same whichever way it is delivered.
+#   via    stylize  Text(str, style=base) + stylize(style, a, b) per span            (any offsets)
+#          spans    Text(str, style=base, spans=[Span(a, b, style) ...])             (0 <= a <= b)
+#          append   Text(style=base) + append(piece, style) / append(Text) ...       (the first npieces spans are the pieces)
+#          assemble Text.assemble(piece | (piece, style) | Text ..., style=base)     (same)
+#          styled   Text.styled(str, style)                                          (first span covers the text, no base)
+#          markup   Text.from_markup("[style]..[/style]", style=base)                (spans in order of opening, see markup_ok)
+#          then stylize() for the remaining spans
+#   reps   per span (and "brep" for the base) the form of the style: 0 Style object, 1 definition string, 2 theme name
+#   jv/ov/nv   arg: wrap argument only | attr: the Text's own attribute, argument None | both: argument + a different
+#          value ("dj"/"do"/"dn") on the Text, which must lose | unset: neither (only for default / fold / False)
+#   tv     arg | omit (tab 8 only: the default of the parameter);  ttab / end: the Text's own tab_size / end, which wrap
+#          does not read
+#   entry  wrap: text.wrap(console, width, ...) | console: console.render(text, options with the width) - the way
+#          Console.print wraps a Text: Text.__rich_console__ -> wrap -> Text("\\n").join(lines) -> render; options not set
+#          on the Text come from the ConsoleOptions (never both: which one wins is not C02's business), the tab size
+#          from the console, the lines are read back from the segment stream
+#   pre    earlier wrap calls [width, justify, overflow, no_wrap, tab] on the very same Text object (results dropped):
+#          wrapping must not change the text, caches must not remember a stale answer
+
+def resolved(spans, n):
+    """the spans as stylize() understands them: 0 <= a < b <= n, no-ops dropped"""
+    out = []
+    for a, b, k, l in spans:
+        if a < 0:
+            a = max(0, n + a)
+        if b < 0:
+            b = n + b
+        if a >= n or b <= a:
+            continue
+        out.append([a, min(n, b), k, l])
+    return out
+
+
+def markup_ok(s, spans):
+    """can this span list be written as markup without meaning something else?  (no character that starts a tag or an
+    emoji code; spans already in order of opening; no two open spans that a closing tag could confuse: same
+    attribute style, or two links - every link tag is called 'link')"""
+    n = len(s)
+    if any(c in s for c in "[\\:"):
+        return False
+    if any(not (0 <= a <= b <= n) or (k == 0 and l == 0) for a, b, k, l in spans):
+        return False
+    if any(spans[i][0] > spans[i + 1][0] for i in range(len(spans) - 1)):
+        return False
+    for i, (a, b, k, l) in enumerate(spans):
+        for a2, b2, k2, l2 in spans[i + 1:]:
+            if a < b2 and a2 < b and a < b and a2 < b2:
+                if (k and k == k2) or (l and l2):
+                    return False
+    return True
+
+
+def markup_of(E, s, spans, close_all):
+    n = len(s)
+
+    def tags(k, l):
+        out = []
+        if k:
+            out.append(("%s %s" % (ATTRS[k - 1], COLS[k - 1]), "%s %s" % (ATTRS[k - 1], COLS[k - 1])))
+        if l:
+            out.append(("link=%s" % URLS[l], "link"))
+        return out
+    out = []
+    for pos in range(n + 1):
+        for a, b, k, l in spans:
+            if b == pos and a < b and (close_all or b < n):
+                out.extend("[/%s]" % name for _, name in reversed(tags(k, l)))
+        for a, b, k, l in spans:
+            if a == pos:
+                out.extend("[%s]" % t for t, _ in tags(k, l))
+                if b == a:
+                    out.extend("[/%s]" % name for _, name in reversed(tags(k, l)))
+        if pos < n:
+            out.append(s[pos])
+    return "".join(out)
+
+
+def deliver(rng, s, base, lbase, spans, justify, overflow, no_wrap, tab, fancy=True):
+    """-> (base, lbase, spans, how): picks a delivery and adapts the span list to it (pieces in front, order of opening)"""
+    n = len(s)
+    how = {}
+    if not fancy:
+        return base, lbase, spans, how
+    # --- construction
+    via = rng.choice(["stylize", "stylize", "stylize", "spans", "append", "assemble", "styled", "markup"])
+    if via in ("append", "assemble"):
+        cuts = sorted(rng.randint(0, n) for _ in range(rng.randint(0, 5)))
+        pieces, prev = [], 0
+        for c in cuts + [n]:
+            k, l = rsty(rng, True) if rng.random() < 0.7 else (0, 0)
+            kind = rng.choice("sst")                   # s: str with style / plain str, t: a Text with that base style
+            pieces.append([prev, c, k, l, kind])
+            prev = c
+        how["pieces"] = pieces
+        spans = [[a, b, k, l] for a, b, k, l, _ in pieces if k or l] + spans
+        how["npieces"] = sum(1 for p in pieces if p[2] or p[3])
+    elif via == "styled":
+        if base or lbase:
+            via = "stylize"
+        else:
+            k, l = rsty(rng, True)
+            spans = [[0, n, k, l]] + spans
+    elif via == "markup":
+        cand = sorted(resolved(spans, n) + [sp for sp in spans if 0 <= sp[0] == sp[1] <= n and (sp[2] or sp[3])],
+                      key=lambda sp: sp[0])
+        if markup_ok(s, cand):
+            spans = cand
+            how["close_all"] = rng.random() < 0.5
+            how["emoji"] = rng.choice([True, False, None])
+        else:
+            via = "stylize"
+    if via == "spans" and any(a < 0 or b < a for a, b, _, _ in spans):
+        via = "stylize"
+    how["via"] = via
+    # --- form of the styles
+    mode = rng.choice([0, 0, 1, 2, 3])
+    reps = [0 if mode == 0 else (mode if mode < 3 else rng.randint(0, 2)) for _ in spans]
+    how["reps"] = reps
+    how["brep"] = 0 if mode == 0 else (mode if mode < 3 else rng.randint(0, 2))
+    # --- options
+    def pick(is_default):
+        return rng.choice(["arg", "arg", "attr", "both"] + (["unset"] if is_default else []))
+    how["jv"], how["ov"], how["nv"] = pick(justify == "default"), pick(overflow == "fold"), pick(not no_wrap)
+    how["dj"] = rng.choice([j for j in JUSTIFY if j != justify])
+    how["do"] = rng.choice([o for o in OVERFLOW if o != overflow])
+    how["dn"] = not no_wrap
+    how["tv"] = "omit" if tab == 8 and rng.random() < 0.5 else "arg"
+    if rng.random() < 0.2:
+        how["entry"] = "console"
+        for key in ("jv", "ov", "nv"):
+            if how[key] == "both":
+                how[key] = "attr"
+    how["ttab"] = rng.choice([8, 8, 4, 3, 1, None])
+    how["end"] = "\n" if how.get("entry") == "console" else rng.choice(["\n", "\n", "", " ", "x"])
+    # --- earlier calls on the same object
+    r = rng.random()
+    if r < 0.25:
+        how["pre"] = [[rng.choice([2, 3, 5, 8, 200]), rng.choice(JUSTIFY), rng.choice(OVERFLOW), rng.random() < 0.2, rng.choice(TABS)]
+                      for _ in range(rng.choice([1, 1, 2]))]
+    elif r < 0.35:
+        how["pre"] = ["same"]
+    return base, lbase, spans, how
+
+
+def options(case):
+    """-> (Text attributes, wrap keyword arguments) for the effective options of the case"""
+    how = case.get("how") or {}
+    attrs, kw = {}, {}
+    for opt, key, decoy in (("justify", "jv", "dj"), ("overflow", "ov", "do"), ("no_wrap", "nv", "dn")):
+        v = how.get(key, "arg")
+        if v in ("arg", "both"):
+            kw[opt] = case[opt]
+        if v == "attr":
+            attrs[opt] = case[opt]
+        if v == "both":
+            attrs[opt] = how[decoy]
+    if how.get("tv", "arg") == "arg":
+        kw["tab_size"] = case["tab"]
+    if "ttab" in how:
+        attrs["tab_size"] = how["ttab"]
+    if "end" in how:
+        attrs["end"] = how["end"]
+    return attrs, kw
+
+
+def mk(E, case):
+    """case -> the real Text"""
+    Text, Span = E["Text"], E["Span"]
+    how = case.get("how") or {}
+    s = "".join(chr(p[0]) for p in case["str"])
+    spans = case["spans"]
+    reps = how.get("reps") or [0] * len(spans)
+    sty = [style(E, k, l, r) for (a, b, k, l), r in zip(spans, reps)]
+    base = style(E, case["base"], case["lbase"], how.get("brep", 0)) if case["base"] or case["lbase"] else ""
+    attrs, _ = options(case)
+    via = how.get("via", "stylize")
+    done = 0
+
+    def ctor(f, allowed, *a, **kw):
+        t = f(*a, **dict(kw, **{k: v for k, v in attrs.items() if k in allowed}))
+        for k, v in attrs.items():
+            if k not in allowed:
+                setattr(t, k, v)
+        return t
+    ALL = ("justify", "overflow", "no_wrap", "end", "tab_size")
+    if via == "spans":
+        t = ctor(Text, ALL, s, style=base, spans=[Span(a, b, st) for (a, b, _, _), st in zip(spans, sty)])
+        done = len(spans)
+    elif via in ("append", "assemble"):
+        parts = []
+        i = 0
+        for a, b, k, l, kind in how["pieces"]:
+            st = None
+            if k or l:
+                st = sty[i]
+                i += 1
+            if kind == "t":
+                parts.append(Text(s[a:b], style=st if st is not None else ""))
+            elif st is None:
+                parts.append(s[a:b])
+            else:
+                parts.append((s[a:b], st))
+        done = i
+        if via == "assemble":
+            t = ctor(Text.assemble, ALL, *parts, style=base)
+        else:
+            t = ctor(Text, ALL, style=base)
+            for p in parts:
+                if isinstance(p, tuple):
+                    t.append(*p)
+                elif isinstance(p, str) or len(p) % 2:
+                    t.append(p)
+                else:
+                    t.append_text(p)
+    elif via == "styled":
+        t = ctor(Text.styled, ("justify", "overflow"), s, sty[0])
+        done = 1
+    elif via == "markup":
+        kw = {} if how.get("emoji") is None else {"emoji": how["emoji"]}
+        t = ctor(Text.from_markup, ("justify", "overflow"), markup_of(E, s, spans, how.get("close_all", True)), style=base, **kw)
+        done = len(spans)
+    else:
+        t = ctor(Text, ALL, s, style=base)
+    for (a, b, k, l), st in list(zip(spans, sty))[done:]:
+        t.stylize(st, a, b)
+    return t
 
 
 # ---- the call under test and its projection --------------------------------------------------------
 
+def observe(E, line):
+    """what a returned line shows: per character the attributes / colour / link of the Segment that Text.render puts it in"""
+    return observe_segments(E, line.render(E["console"]), len(line.plain))
+
+
+def observe_segments(E, segments, expect=None):
+    chars = []
+    for seg in segments:
+        st = seg.style
+        ids, top, link = [], 0, 0
+        if st is not None:
+            ids = [i + 1 for i, a in enumerate(ATTRS) if getattr(st, a)]
+            if st.color is not None:
+                top = COLS.index(st.color.name) + 1 if st.color.name in COLS else 9
+            if st.link is not None:
+                link = E["url_id"].get(st.link, 9)
+        for ch in seg.text:
+            chars.append([ord(ch), E["w"](ch), ids, top, link])
+    if expect is not None and len(chars) != expect:
+        return dict(rexc="render-length-%d-plain-%d" % (len(chars), expect), chars=chars)
+    return dict(rexc="none", chars=chars)
+
+
 def execute(E, case):
     """Runs the real Text.wrap; returns the record for Trace_Wrap."""
-    rec = dict(case)
+    rec = {k: v for k, v in case.items() if k != "how"}
     rec["exc"] = "none"
     rec["lines"] = []
-    w = E["w"]
+    how = case.get("how") or {}
     try:
-        t = E["mk"](E, case)
-        lines = t.wrap(E["console"], case["width"], justify=case["justify"], overflow=case["overflow"],
-                       tab_size=case["tab"], no_wrap=case["no_wrap"])
-        lines = list(lines)
+        t = mk(E, case)
+        _, kw = options(case)
+        for p in how.get("pre", ()):
+            if p == "same":
+                list(t.wrap(E["console"], case["width"], **kw))
+            else:
+                list(t.wrap(E["console"], p[0], justify=p[1], overflow=p[2], no_wrap=p[3], tab_size=p[4]))
+        if how.get("entry") == "console":
+            console = E["console_for"](case["tab"])
+            okw = {k: v for k, v in kw.items() if k != "tab_size"}
+            segs = list(console.render(t, console.options.update(width=case["width"], **okw)))
+            rec["lines"] = [observe_segments(E, line) for line in E["Segment"].split_lines(segs)]
+            return rec
+        lines = list(t.wrap(E["console"], case["width"], **kw))
     except Exception as ex:
         rec["exc"] = type(ex).__name__
         return rec
     for line in lines:
         try:
-            o = E["observe"](E, line)
+            rec["lines"].append(observe(E, line))
         except Exception as ex:
             rec["lines"].append(dict(rexc=type(ex).__name__, chars=[]))
-            continue
-        rec["lines"].append(dict(rexc=o.get("render_exc", "none"),
-                                 chars=[[c[0], w(chr(c[0])), c[1], c[2]] for c in o["chars"]]))
     return rec
 
 
 # ---- random inputs ------------------------------------------------------------------------------------
 
-def rtext(E, rng, nmax):
-    """words of mixed classes separated by runs of spaces / tabs / newlines; code points distinct
-    while the pools last, or (every fifth text) a small alphabet with many repeats"""
+def rword(E, rng, st, cells=None, wl=None):
+    """one word: wl characters of mixed classes, or (cells given) exactly that many cells"""
+    P = E["pools"]
+
+    def ch(k):
+        if st["small"]:
+            return chr(rng.choice(st["alpha"][k]))
+        st["nxt"][k] += 1
+        return chr(P[k][st["nxt"][k] % len(P[k])])
+    mix = st["mix"] if rng.random() < 0.9 else rng.choice([(0, 0, 1), (0, 1, 0), (1, 0, 0), (0, 1, 1)])
+    if cells is None:
+        return [ch(rng.choices("NWZ", mix)[0]) for _ in range(wl)]
+    out, left, zs = [], cells, 0
+    while left > 0:
+        k = rng.choices("NWZ", mix)[0]
+        if k == "Z":
+            zs += 1
+            if mix[0] + mix[1] == 0 and zs > 4:          # a word of zero-width characters only has no size to reach
+                break
+            if zs > cells + 3:
+                k = "N"
+        if k == "W" and left < 2:
+            k = "N"
+        out.append(ch(k))
+        left -= {"N": 1, "W": 2, "Z": 0}[k]
+    return out
+
+
+def rsep(rng, P, profile):
+    """one run of white space"""
+    r = rng.random()
+    if profile == "uws" and r < 0.6:
+        return [chr(rng.choice(P["U"] + [0x3000, 0x3000, 0xA0])) if rng.random() < 0.7 else " " for _ in range(rng.choice([1, 1, 2, 3]))]
+    if profile == "tabs" and r < 0.5:
+        return list(rng.choice(["\t", "\t", " \t", "\t ", "\t\t", "  \t"]))
+    if profile == "edges" and r < 0.3:
+        return ["\n"] * rng.choice([1, 2, 3]) if rng.random() < 0.5 else list(rng.choice([" \n", "\n ", " \n ", "  \n\n  ", "\t\n"]))
+    if r < 0.86:
+        return [" "] * rng.choice([1, 1, 1, 1, 2, 3, rng.randint(1, 12)])
+    if r < 0.90:
+        return [chr(rng.choice(P["U"]))]
+    if r < 0.95:
+        return ["\t"]
+    return ["\n"] * rng.choice([1, 1, 2])
+
+
+def rtext(E, rng, nmax, width=None):
+    """words of mixed classes separated by runs of white space; code points distinct while the pools last, or (every
+    fifth text) a small alphabet with many repeats.  Profiles: plain | uws (other Unicode white space) | tabs |
+    edges (runs of newlines, white space around newlines, at both ends) | fit (word sizes around the given width:
+    width - 1, width, width + 1, 2 width, 2 width + 1 cells ...)"""
     P = E["pools"]
     n = rng.choice([rng.randint(0, 12), rng.randint(5, 40), rng.randint(20, nmax), rng.randint(nmax // 2, nmax)])
-    small = rng.random() < 0.2
-    alpha = {k: rng.sample(P[k], 3) for k in "NWZ"}
-    nxt = {k: rng.randint(0, 50) for k in "NWZ"}
-    mix = rng.choice([(1, 0, 0), (6, 1, 1), (2, 2, 1), (1, 3, 0), (3, 1, 3)])
+    profile = "fit" if width is not None else rng.choice(["plain", "plain", "plain", "uws", "tabs", "edges"])
+    st = dict(small=rng.random() < 0.2, alpha={k: rng.sample(P[k], 3) for k in "NWZ"}, nxt={k: rng.randint(0, 50) for k in "NWZ"},
+              mix=rng.choice([(1, 0, 0), (6, 1, 1), (2, 2, 1), (1, 3, 0), (3, 1, 3), (0, 1, 0)]))
     out = []
+    if rng.random() < (0.6 if profile == "tabs" else 0.2):
+        out.extend(rsep(rng, P, profile))                   # the text starts with white space
     while len(out) < n:
-        r = rng.random()
-        if r < 0.55 or not out:
-            wl = rng.choice([1, 2, 3, 4, 5, 7, rng.randint(1, 12), rng.randint(1, 40), rng.randint(1, nmax)])
-            for _ in range(wl):
-                k = rng.choices("NWZ", mix)[0]
-                if small:
-                    out.append(chr(rng.choice(alpha[k])))
-                else:
-                    out.append(chr(P[k][nxt[k] % len(P[k])]))
-                    nxt[k] += 1
-        elif r < 0.9:
-            out.extend(" " * rng.choice([1, 1, 1, 1, 2, 3, rng.randint(1, 12)]))
-        elif r < 0.95:
-            out.append("\t")
+        if profile == "fit":
+            c = rng.choice([width - 1, width, width, width + 1, width + 1, 2 * width, 2 * width + 1, 2 * width - 1, 1, 2, 3,
+                            max(1, width // 2), rng.randint(1, width)])
+            out.extend(rword(E, rng, st, cells=max(1, c)))
         else:
-            out.extend("\n" * rng.choice([1, 1, 2]))
-    return "".join(out[:n])
+            out.extend(rword(E, rng, st, wl=rng.choice([1, 2, 3, 4, 5, 7, rng.randint(1, 12), rng.randint(1, 40), rng.randint(1, nmax)])))
+        out.extend(rsep(rng, P, profile))
+    out = out[:n]
+    if out and rng.random() < 0.8:
+        while out and out[-1].isspace() and rng.random() < 0.9:      # mostly end with a word, sometimes with white space
+            out.pop()
+    return "".join(out)
 
 
-def rwidth(rng, s):
-    longest = max([len(x) for x in re.split(r"\s+", s)] + [1])
-    return max(2, min(200, rng.choice([2, 3, 4, 5, 8, rng.randint(2, 12), rng.randint(2, 30), longest, longest + 1,
-                                       max(2, longest - 1), rng.randint(2, 200), max(2, len(s) // 3)])))
+def rwidth(E, rng, s, tab):
+    """widths around the sizes that decide: the widest word, the widest line, the first word of a line with its indentation"""
+    w = E["w"]
+    cl = lambda x: sum(w(c) for c in x)
+    longest = max([cl(x) for x in s.split()] + [1])
+    line = max(cl(x.expandtabs(tab)) for x in s.split("\n"))
+    ind = [1]
+    for ln in s.split("\n"):
+        body = ln.lstrip()
+        if body and len(body) < len(ln):
+            col = 0
+            for c in ln[:len(ln) - len(body)]:
+                col = col + tab - col % tab if c == "\t" else col + w(c)
+            ind.append(col + cl(body.split()[0]))
+    iw = rng.choice(ind)
+    return max(2, min(200, rng.choice([2, 3, 4, 5, 8, rng.randint(2, 12), rng.randint(2, 30), longest, longest + 1, longest - 1,
+                                       line, line + 1, line - 1, iw, iw - 1, iw + 1, iw + rng.randint(0, 9),
+                                       rng.randint(2, 200), len(s) // 3, 200, 199])))
 
 
 def random_case(E, rng, nmax=200):
-    s = rtext(E, rng, nmax)
-    o, nw = rng.choice(MODES + [("fold", False)] * 5)
-    return mkcase(E, s, rng.choice([0, 0, 1, 2, 3, 4]), rspans(rng, len(s), rng.choice([0, 2, 4, 8, 14])),
-                  rwidth(rng, s), rng.choice(JUSTIFY), o, nw, rng.choice([8, 8, 4]))
+    tab = rng.choice(TABS)
+    if rng.random() < 0.25:
+        width = rng.choice([2, 3, 4, 5, 7, 8, 9, rng.randint(2, 20), rng.randint(2, 80)])
+        s = rtext(E, rng, nmax, width)
+    else:
+        s = rtext(E, rng, nmax)
+        width = rwidth(E, rng, s, tab)
+    o, nw = rng.choice(MODES + [("fold", False)] * 6)
+    j = rng.choice(JUSTIFY)
+    fancy = rng.random() < 0.75
+    base, lbase = rng.choice([0, 0, 1, 2, 3, 4]), (rng.choice([0, 0, 0, 1, 2]) if fancy else 0)
+    spans = rspans(rng, len(s), rng.choice([0, 2, 4, 8, 14]), links=fancy, wild=fancy and rng.random() < 0.4)
+    base, lbase, spans, how = deliver(rng, s, base, lbase, spans, j, o, nw, tab, fancy)
+    return mkcase(E, s, base, spans, width, j, o, nw, tab, lbase, how)
+
+
+# ---- hand-listed inputs at the boundaries ---------------------------------------------------------------------------
+
+def boundary_cases(E, rng, per_text):
+    """short texts that sit on the boundaries of the algorithm (every character its own span, or spans that start and
+    end exactly where the text breaks), widths around the sizes of their words, every justify x overflow x no_wrap,
+    delivered plainly and in a random other way"""
+    P = E["pools"]
+    N, W, Z = [chr(c) for c in P["N"][:12]], [chr(c) for c in P["W"][:8]], [chr(c) for c in P["Z"][:6]]
+    I, NB, FS = "\u3000", "\xa0", "\x1f"
+    a, b, c, d, e, f = N[:6]
+    A, B, C, D = W[:4]
+    z, y = Z[:2]
+    texts = [
+        "", " ", "   ", "\n", "\n\n", " \n ", "\t", "\t\t", I, NB, FS, z, z + y,                              # nothing visible
+        a, a + b, a + b + c, a + b + c + d + e, A, A + B, a + A, A + a, a + A + b, A + a + B, A + B + C,      # one word, wide characters astride the edge
+        a + z, z + a, a + z + b + y, A + z, z + z + " " + a, a + " " + z + y + " " + b,                       # zero-width characters, words made of them
+        a + b + " " + c + d, a + b + "  " + c + d, a + " " + b + " " + c, a + b + c + " " + d, a + " " + b + c + d,
+        " " + a + b, "  " + a + b, "   " + a + b + c, a + b + " ", a + b + "   ", " " + a + " ", "  " + a + b + "  " + c + "  ",
+        a + b + c + d + " " + e, a + " " + b + c + d + e + f + " " + a, A + " " + B, A + B + " " + C, a + " " + A + B,
+        a + "\n" + b, a + "\n\n" + b, a + b + c + "\n" + d, "\n" + a, a + "\n", a + " \n " + b, a + b + c + d + "\n\n\n" + e + " " + f,
+        "\t" + a, a + "\t" + b, a + b + "\t" + c + d, A + "\t" + b, a + "\t" + A, "\t\t" + a + b + c, " \t" + a, a + "\t", a + "\t\n\t" + b,
+        a + NB + b, a + b + NB + c + d, a + I + b, a + b + I, I + a + b, a + b + c + I + I + d, a + FS + b, a + " " + NB + " " + b,
+        I + "\t" + a + b + c, FS + "\t" + a + b + c + d, a + b + " " + I, a + b + c + " " + I + I, A + I + B, a + " " + b, a + "\x85" + b + c,
+        a + b + c + d + e + f + a + b + c + d + e + f, (a + b + c + " ") * 4, (A + " ") * 3 + a, (a + " ") * 6,
+    ]
+    # the characters str.splitlines() takes for line boundaries but Text.split("\\n") / Text.wrap do not (zero cells wide,
+    # white space for \\s and str.split): a line that holds them is longer than any of its splitlines() pieces
+    for ch in LINE_BOUNDARY_WS:
+        texts += [a + b + c + ch + d + e + f, a + ch + b, ch + a + b, a + b + ch, a + b + c + ch + ch + d + e + f + a, a + " " + ch + " " + b,
+                  A + B + ch + C + D, a + b + c + ch + d + e + f + "\n" + a + b + c, a + b + ch + "\t" + c]
+    cases = []
+    for ti, s in enumerate(texts):
+        n = len(s)
+        wl = [sum(E["w"](c) for c in x) for x in s.split()] + [sum(E["w"](c) for c in s)]
+        widths = sorted({2, 3} | {min(200, max(2, x + dx)) for x in wl for dx in (-1, 0, 1)})[:7]
+        cfgs = [(w, j, o, nw) for w in widths for j in JUSTIFY for (o, nw) in MODES]
+        for ci, (w, j, o, nw) in enumerate(rng.sample(cfgs, min(per_text, len(cfgs)))):
+            tab = rng.choice([8, 4, 2, 3, 1]) if "\t" in s else 8
+            kind = (ci + ti) % 4
+            if kind == 0:                                # every character its own span
+                spans, base, lbase = [[i, i + 1, 1 + i % NSTY, (i // 2) % (NLINK + 1)] for i in range(n)], 0, 0
+            elif kind == 1:                              # spans whose ends lie on word / break boundaries, beyond the text, before it
+                edges = sorted({0, n} | {i for i in range(1, n) if s[i].isspace() != s[i - 1].isspace()} | {min(n, w), min(n, 2 * w)})
+                spans = []
+                for _ in range(rng.randint(1, 6)):
+                    x, y2 = sorted([rng.choice(edges), rng.choice(edges)])
+                    spans.append([x, rng.choice([y2, y2, n + 3, x]), rng.randint(1, NSTY), rng.choice([0, 0, 1, 2])])
+                base, lbase = rng.choice([0, 1, 2]), rng.choice([0, 0, 1])
+            else:
+                spans, base, lbase = rspans(rng, n, 5, links=True, wild=kind == 3), rng.choice([0, 0, 1, 2, 3, 4]), rng.choice([0, 0, 1, 2])
+            fancy = ci % 2 == 1
+            base, lbase, spans, how = deliver(rng, s, base, lbase, spans, j, o, nw, tab, fancy)
+            cases.append(mkcase(E, s, base, spans, w, j, o, nw, tab, lbase, how))
+    # indentation: a first word behind spaces and tabs, every tab size, widths from "just fits" upwards (clause d counts
+    # the indentation; a tab stop in the wrong place breaks a word that fits)
+    word = "".join(N)
+    ci = 0
+    for tab in (1, 2, 3, 4, 5, 6, 7, 8, 16):
+        for lead in ("\t", " \t", "  \t", "\t\t", "   \t", "\t \t", "     \t", "\t  "):
+            col = 0
+            for ch in lead:
+                col = col + tab - col % tab if ch == "\t" else col + 1
+            for L in (2, 5, 12):
+                for dw in (0, 1, 3, 6):
+                    ci += 1
+                    s = lead + word[:L] + rng.choice(["", " " + b + c, "\n" + lead + d + e])
+                    n = len(s)
+                    spans = [[i, i + 1, 1 + i % NSTY, 0] for i in range(n)] if ci % 2 else rspans(rng, n, 4, links=True)
+                    j = JUSTIFY[ci % 5]
+                    how = {"tv": "omit"} if tab == 8 and ci % 3 else {}
+                    if col + L + dw <= 200:
+                        cases.append(mkcase(E, s, 0, spans, max(2, col + L + dw), j, "fold", False, tab, 0, how))
+    return cases
 
 
 # ---- shape of a case for signatures -----------------------------------------------------------------------
 
 def shape(E, case):
-    w = sum(p[1] for p in case["str"])
     s = "".join(chr(p[0]) for p in case["str"])
     srcw = max(sum(E["w"](c) for c in ln.expandtabs(case["tab"])) for ln in s.split("\n"))
     return "justify=%s overflow=%s no_wrap=%s line-wider-than-width=%s" % (
@@ -217,35 +705,54 @@ def shape(E, case):
 
 
 def size(case):
-    return (len(case["str"]), len(case["spans"]), case["width"], 0 if case["base"] == 0 else 1)
+    return (0 if plain_delivery(case) else 1 + len((case.get("how") or {}).get("pre", ())), len(case["str"]), len(case["spans"]), case["width"],
+            0 if case["base"] == 0 and case["lbase"] == 0 else 1)
+
+
+def plain_delivery(case):
+    n = len(case["str"])
+    return not case.get("how") and all(0 <= a < b <= n for a, b, _, _ in case["spans"])
+
+
+def plain_version(case):
+    """the same case delivered the plain way (arguments only, stylize with resolved offsets)"""
+    return dict(case, how={}, spans=resolved(case["spans"], len(case["str"])), ovarg=case["overflow"])
 
 
 def reductions(case):
     """candidate simplifications of a failing case (one TLC batch per round)"""
+    if not plain_delivery(case):
+        how = case.get("how") or {}
+        out = [plain_version(case)]
+        if how.get("pre"):
+            out.append(dict(case, how={k: v for k, v in how.items() if k != "pre"}))
+        return out
     n = len(case["str"])
     out = []
 
     def cut(a, b):
         k = b - a
         sp = []
-        for x, y, st in case["spans"]:
+        for x, y, st, ln in case["spans"]:
             x2 = x if x <= a else max(a, x - k)
             y2 = y if y <= a else max(a, y - k)
-            sp.append([x2, y2, st])
-        return dict(case, str=case["str"][:a] + case["str"][b:], spans=sp)
+            sp.append([x2, y2, st, ln])
+        return dict(case, str=case["str"][:a] + case["str"][b:], spans=resolved(sp, n - k))
 
     for k in sorted({n // 2, n // 4, n // 8, 2, 1} - {0}, reverse=True):
         for a in range(0, n, k):
             out.append(cut(a, min(n, a + k)))
     for i in range(len(case["spans"])):
         out.append(dict(case, spans=case["spans"][:i] + case["spans"][i + 1:]))
+    if any(sp[3] for sp in case["spans"]) or case["lbase"]:
+        out.append(dict(case, lbase=0, spans=resolved([[x, y, st, 0] for x, y, st, _ in case["spans"] if st], n)))
     if case["base"]:
         out.append(dict(case, base=0))
     if case["width"] > 2:
         out.append(dict(case, width=case["width"] - 1))
         out.append(dict(case, width=max(2, case["width"] // 2)))
     for i, p in enumerate(case["str"]):
-        if p[0] > 126 and p[1] == 1:
+        if p[0] > 126 and p[1] == 1 and not chr(p[0]).isspace():
             out.append(dict(case, str=case["str"][:i] + [[97 + i % 26, 1]] + case["str"][i + 1:]))
     return out[:400]
 
@@ -267,17 +774,21 @@ def minimise(E, chk, case, clause, rounds=12):
 
 # ---- the check -----------------------------------------------------------------------------------------------
 
-def m1_cfg(maxlen, design, tabs, invs, emit=False):
-    return ("CONSTANTS\n  MaxLen = %d\n  MaxWidth = 6\n  Design = \"%s\"\n  TabSizes = {%s}\nSPECIFICATION Spec\n%s%s"
-            "CHECK_DEADLOCK FALSE\n" % (maxlen, design, ", ".join(map(str, tabs)),
+def m1_cfg(maxlen, design, tabs, invs, emit=False, extra=False):
+    return ("CONSTANTS\n  MaxLen = %d\n  MaxWidth = 6\n  Design = \"%s\"\n  TabSizes = {%s}\n  Extra = %s\nSPECIFICATION Spec\n%s%s"
+            "CHECK_DEADLOCK FALSE\n" % (maxlen, design, ", ".join(map(str, tabs)), "TRUE" if extra else "FALSE",
                                         "".join("INVARIANT %s\n" % i for i in invs), "CONSTRAINT Emit\n" if emit else ""))
+
+
+BASIC = ["AddN", "AddW", "AddZ", "AddS", "AddT", "AddL"]
 
 
 def run_m1(chk):
     """the design against the property + the wrong designs, concurrently"""
     jobs = {
         "real-all": (m1_cfg(chk.pick(4, 5), "real", [2, 4], ["InvM1"]), chk.pick(3, 5)),
-        "real-deep": (m1_cfg(chk.pick(5, 6), "real", [4], ["InvWrap"]), chk.pick(12, 10)),
+        "real-deep": (m1_cfg(chk.pick(5, 6), "real", [4], ["InvWrap"]), chk.pick(10, 10)),
+        "real-ws": (m1_cfg(chk.pick(3, 4), "real", [3], ["InvM1"], extra=True), chk.pick(2, 4)),
         "witness-broken": (m1_cfg(3, "real", [4], ["NeverBroken"]), 1),
         "witness-dropped": (m1_cfg(3, "real", [4], ["NeverDropped"]), 1),
     }
@@ -289,7 +800,7 @@ def run_m1(chk):
         cfg, workers = jobs[name]
         try:
             res[name] = tlc.model_check("MC_Wrap", cfg_text=cfg, workers=workers, tag="c02m1", timeout=5400,
-                                        require_actions=["AddN", "AddW", "AddZ", "AddS", "AddT", "AddL"]
+                                        require_actions=(BASIC + (["AddU", "AddV"] if name == "real-ws" else []))
                                         if name.startswith("real") else ())
         except Exception as ex:          # re-raised in the main thread
             res[name] = ex
@@ -301,7 +812,7 @@ def run_m1(chk):
     for name, v in res.items():
         if isinstance(v, Exception):
             raise v
-    for name in ("real-all", "real-deep"):
+    for name in ("real-all", "real-deep", "real-ws"):
         r, cov, missing = res[name]
         chk.add_tlc(r, "M1-" + name)
         if r.violated or missing or not r.finished:
@@ -323,8 +834,9 @@ def run_m1(chk):
 
 def enumerated_cases(E, chk):
     """M2: every class string TLC enumerates, made concrete, with every configuration (short strings) or a
-    seeded selection of configurations (longer strings)"""
-    full_len, max_len, per_string = chk.pick((3, 5, 3), (4, 6, 5))
+    seeded selection of configurations (longer strings); strings with spaces a second time with other white space
+    characters in their place"""
+    full_len, mid_cfgs, max_len, per_string = chk.pick((2, 50, 5, 3), (3, 60, 6, 5))
     behs, r = tlc.behaviours("MC_Wrap", cfg_text=m1_cfg(max_len, "real", [4], [], emit=True), tag="c02m2", timeout=3000)
     chk.add_tlc(r, "M2")
     strings = sorted({"".join(b["beh"]) for b in behs}, key=lambda x: (len(x), x))
@@ -338,49 +850,120 @@ def enumerated_cases(E, chk):
     cases = []
     for idx, cs in enumerate(strings):
         n = len(cs)
-        cfgs = allcfg if n <= full_len else rng.sample(allcfg, per_string)
-        s = concretize(E, cs, idx % 9)
-        for ci, (w, j, o, nw) in enumerate(cfgs):
-            if (ci + idx) % 2 == 0:          # every character its own span, no base
-                spans, base = [[i, i + 1, 1 + i % NSTY] for i in range(n)], 0
-            else:                            # random spans over a base style
-                spans, base = rspans(rng, n, 5), rng.choice([0, 1, 2, 3, 4])
-            tab = rng.choice([4, 8, 2]) if "T" in cs else 8
-            cases.append(mkcase(E, s, base, spans, w, j, o, nw, tab))
+        cfgs = allcfg if n <= full_len else rng.sample(allcfg, mid_cfgs if n == full_len + 1 else per_string)
+        variants = [(concretize(E, cs, idx % 9), cfgs)]
+        if "S" in cs:
+            variants.append((concretize(E, cs, idx % 7, rng), rng.sample(allcfg, min(len(cfgs), per_string + 1))))
+        for s, cfgs in variants:
+            for ci, (w, j, o, nw) in enumerate(cfgs):
+                lbase = 0
+                if (ci + idx) % 2 == 0:          # every character its own span, no base
+                    spans, base = [[i, i + 1, 1 + i % NSTY, 0] for i in range(n)], 0
+                else:                            # random spans over a base style
+                    spans, base = rspans(rng, n, 5, links=ci % 4 == 1, wild=ci % 8 == 5), rng.choice([0, 1, 2, 3, 4])
+                tab = rng.choice([4, 8, 2, 3]) if "T" in cs else 8
+                base, lbase, spans, how = deliver(rng, s, base, lbase, spans, j, o, nw, tab, fancy=ci % 3 == 2)
+                cases.append(mkcase(E, s, base, spans, w, j, o, nw, tab, lbase, how))
     return cases
+
+
+def tally(cases):
+    """how often every value of every dimension of the generator occurs (goes to the evidence file)"""
+    from collections import Counter
+    T = {k: Counter() for k in ("justify", "overflow", "no_wrap", "tab", "width", "via", "jv", "ov", "nv", "tv", "entry", "style_forms", "pre",
+                                "text", "spans")}
+    for c in cases:
+        how = c.get("how") or {}
+        s = "".join(chr(p[0]) for p in c["str"])
+        n = len(s)
+        for k in ("justify", "overflow", "no_wrap", "tab"):
+            T[k][str(c[k])] += 1
+        w = c["width"]
+        T["width"]["2" if w == 2 else "3-6" if w <= 6 else "7-20" if w <= 20 else "21-80" if w <= 80 else "81-199" if w < 200 else "200"] += 1
+        T["via"][how.get("via", "stylize")] += 1
+        for k in ("jv", "ov", "nv", "tv"):
+            T[k][how.get(k, "arg")] += 1
+        T["entry"][how.get("entry", "wrap")] += 1
+        reps = set(how.get("reps") or [0])
+        T["style_forms"]["+".join(("object", "definition", "theme-name")[r] for r in sorted(reps))] += 1
+        T["pre"][str(len(how.get("pre", ())))] += 1
+        for name, hit in (("empty", n == 0), ("only-white-space", n > 0 and not s.strip()), ("other-white-space", any(ord(ch) in OTHER_WS for ch in s)),
+                          ("wide-white-space", "\u3000" in s), ("splitlines-boundary-ws", any(ch in s for ch in LINE_BOUNDARY_WS)), ("tab", "\t" in s), ("tab+wide", "\t" in s and any(p[1] == 2 for p in c["str"])),
+                          ("newline-run", "\n\n" in s), ("leading-ws", s[:1].isspace()), ("trailing-ws", s[-1:].isspace()),
+                          ("zero-width-only-word", any(x and all(p == 0 for p in x) for x in
+                                                       [[q[1] for q in c["str"][i:j]] for i, j in _word_ranges(s)])),
+                          ("word=width", any(sum(q[1] for q in c["str"][i:j]) == w for i, j in _word_ranges(s))),
+                          ("word=width+1", any(sum(q[1] for q in c["str"][i:j]) == w + 1 for i, j in _word_ranges(s))),
+                          ("fits-without-wrapping", sum(q[1] for q in c["str"]) <= w and "\n" not in s and "\t" not in s)):
+            if hit:
+                T["text"][name] += 1
+        for name, hit in (("none", not c["spans"] and not c["base"] and not c["lbase"]), ("link", any(sp[3] for sp in c["spans"]) or c["lbase"] > 0),
+                          ("negative-offset", any(sp[0] < 0 or sp[1] < 0 for sp in c["spans"])), ("beyond-text", any(sp[1] > n for sp in c["spans"])),
+                          ("empty-span", any(sp[0] == sp[1] for sp in c["spans"])), ("null-style", any(sp[2] == 0 and sp[3] == 0 for sp in c["spans"])),
+                          ("base", c["base"] > 0)):
+            if hit:
+                T["spans"][name] += 1
+    return {k: dict(sorted(v.items())) for k, v in T.items()}
+
+
+def _word_ranges(s):
+    return [m.span() for m in re.finditer(r"\S+", s)]
 
 
 def run(chk: Check):
     E = env()
-    chk.rule = ("a case is one call Text.wrap(console, width, justify, overflow, tab_size, no_wrap) on a styled text: "
-                "(i) every class string over {narrow, wide, zero-width, space, tab, newline} enumerated by TLC (MC_Wrap), made "
-                "concrete with distinct code points from per-class pools that start at the edges of the tree's width table - "
-                "strings up to the full-configuration length with all 5 widths x 5 justify x 7 overflow/no_wrap modes (styled "
-                "alternately one span per character / random spans over a base), longer ones with a seeded selection of configurations; (ii) seeded random texts of 0..200 characters "
-                "(words of mixed classes, runs of spaces, tabs, newlines; every fifth over a small alphabet with repeats) with a "
-                "base style and up to 14 random overlapping / nested / duplicate / empty spans, widths 2..200; distinct by (text, "
-                "styles, arguments); non-trivial = the text is styled and either wrapping produced more lines than the text has "
-                "source lines or characters were cropped")
-    chk.trusted = ["drivers/c05.py:observe (per-character style of every returned line read back with Text.render; style -> "
-                   "{attribute ids, colour id})", "drivers/c05.py:mk (Text(str, style) + stylize per span)",
+    chk.rule = ("a case is one call Text.wrap(console, width, ...) on a styled text, described by the text, its base style and spans "
+                "(attribute+colour and hyperlink channel), the width and the EFFECTIVE justify / overflow / no_wrap / tab size; how these reach "
+                "the call is varied independently (delivery): text built by Text()+stylize, the spans= argument, append / append_text, "
+                "Text.assemble, Text.styled or Text.from_markup; styles as Style objects, definition strings or theme names; each option as "
+                "wrap argument, as the Text's own attribute, both (argument wins) or left unset (defaults); tab size given or defaulted; "
+                "earlier wrap calls on the same object.  Inputs: (i) every class string over {narrow, wide, zero-width, space, tab, newline} "
+                "enumerated by TLC (MC_Wrap), made concrete with distinct code points from per-class pools that start at the edges of the "
+                "tree's width table (strings with spaces also with other Unicode white space in their place) - the shortest with all "
+                "5 widths x 5 justify x 8 overflow/no_wrap modes, longer ones with a seeded selection; (ii) hand-listed boundary texts "
+                "(nothing visible, one word astride the edge, zero-width-only words, white space at the ends, runs of newlines, tabs with "
+                "wide characters, NBSP / IDEOGRAPHIC SPACE / zero-width separators) at widths around their word and line sizes; (iii) seeded "
+                "random texts of 0..200 characters in the profiles plain / other white space / tabs / edges / word sizes around the width, "
+                "base style and up to 14 overlapping / nested / duplicate / empty / negative-offset / beyond-the-text spans, widths 2..200, "
+                "tab sizes 1..8 and 16; distinct by (text, styles, options, delivery); non-trivial = the text is styled and either wrapping "
+                "produced more lines than the text has source lines or characters were cropped")
+    chk.trusted = ["drivers/c02.py:observe (per-character style of every returned line read back with Text.render; style -> "
+                   "{attribute ids, colour id, link id})", "drivers/c02.py:mk / deliver (the delivery variants mean the same text, styles and options)",
                    "rich.cells.get_character_cell_size for the widths of input and output characters (subject of C13)",
-                   "drivers/c02.py:pools (class membership of a code point decided by the tree's own width function and str.isspace)"]
-    chk.assumptions = ["whitespace is space / tab / newline only (no other Unicode space, no control code the constructor strips); "
-                       "the ellipsis character does not occur in inputs", "span offsets are non-negative; tab sizes 2, 4, 8",
+                   "drivers/c02.py:pools (class membership of a code point decided by the tree's own width function and str.isspace)",
+                   "specs/TextOps.tla: Lit / Eff (which spans cover a character, later spans win) - shared with C05"]
+    chk.assumptions = ["whitespace is what Python calls white space (space, tab, newline, FS GS RS US, NEL, NBSP, U+1680, U+2000-200A, LS, PS, "
+                       "U+202F, U+205F, U+3000); VT FF CR and other control codes the constructor strips do not occur; the ellipsis character "
+                       "does not occur in inputs", "tab sizes 1..8 and 16; where tab stops lie when the indentation holds characters that are "
+                       "not one cell wide is left open (cells or characters)",
+                       "spans= offsets are 0 <= start <= end; stylize offsets are any integers; style names are valid",
+                       "the effective option is the wrap argument when given, else the Text's attribute, else default / fold / False",
                        "clauses (a) and (b) are demanded when wrapping happens (no_wrap false, overflow not ignore); clause (c) and "
-                       "(d) always", "spaces are identified only where the output leaves no doubt (interior runs when justify is not "
+                       "(d) always", "white space is identified only where the output leaves no doubt (interior runs when justify is not "
                        "full, leading runs for default/left); all other spaces - padding, full-justify gaps, expanded tabs - are "
-                       "unconstrained by (c) and only compared with RefWrap (drift)"]
+                       "unconstrained by (c) and only compared with RefWrap (drift)",
+                       "markup delivery only for texts without '[', '\\' and ':' and span sets a closing tag cannot confuse"]
     if chk.replay_only:
-        cases = [chk.replay_only["case"]]
+        c = chk.replay_only["case"]
+        if "ovarg" not in c:                 # a replay file written before the delivery dimensions existed
+            c = mkcase(E, "".join(chr(p[0]) for p in c["str"]), c["base"], c["spans"], c["width"], c["justify"], c["overflow"],
+                       c["no_wrap"], c["tab"])
+        cases = [c]
     else:
-        run_m1(chk)
+        if os.environ.get("C02_SKIP_M1") == "1":     # M1 does not depend on the tree under test: mutant trials may skip it
+            chk.notes["m1"] = "skipped (C02_SKIP_M1=1)"
+        else:
+            run_m1(chk)
         chk.mark("M1")
         cases = enumerated_cases(E, chk)
         chk.notes["enumerated_cases"] = len(cases)
-        nrand = chk.pick(2500, 25000)
+        bc = boundary_cases(E, chk.rng, chk.pick(50, 280))
+        chk.notes["boundary_cases"] = len(bc)
+        cases += bc
+        nrand = chk.pick(6000, 40000)
         cases += [random_case(E, chk.rng) for _ in range(nrand)]
         chk.notes["random_cases"] = nrand
+        chk.notes["generator_tally"] = tally(cases)
         chk.mark("generate")
     rejected = {}
     drifts = {}
@@ -392,7 +975,7 @@ def run(chk: Check):
         chk.add_tlc(st, "M3")
         chk.traces += len(recs)
         for c, rec, v in zip(part, recs, verdicts):
-            styled = bool(c["base"]) or any(b > a for a, b, _ in c["spans"])
+            styled = bool(c["base"]) or bool(c["lbase"]) or bool(resolved(c["spans"], len(c["str"])))
             nsrc = sum(1 for p in c["str"] if p[0] == 10) + 1
             nout = sum(len(l["chars"]) for l in rec["lines"])
             chk.case(c, styled and (len(rec["lines"]) > nsrc or nout < len(c["str"]) - (nsrc - 1)))
@@ -411,16 +994,16 @@ def run(chk: Check):
             chk.sample(dict(case=part[-1], lines=recs[-1]["lines"]))
     chk.mark("M3")
     for key, c in sorted(drifts.items()):
-        chk.drift_note("Text.wrap differs from RefWrap while WrapOK holds: %s e.g. text=%r width=%d tab=%d"
-                       % (key, "".join(chr(p[0]) for p in c["str"])[:40], c["width"], c["tab"]))
+        chk.drift_note("Text.wrap differs from RefWrap while WrapOK holds: %s e.g. text=%r width=%d tab=%d spans=%s how=%s"
+                       % (key, "".join(chr(p[0]) for p in c["str"])[:40], c["width"], c["tab"], c["spans"][:6], c.get("how")))
     for sig, (c, rec, v) in sorted(rejected.items()):
-        if not chk.replay_only and len(c["str"]) > 8 and len(rejected) <= 6:
+        if not chk.replay_only and len(rejected) <= 6 and (len(c["str"]) > 8 or not plain_delivery(c)):
             c = minimise(E, chk, c, v.split(":")[0])
             rec = execute(E, c)
         text = "".join(chr(p[0]) for p in c["str"])
-        chk.reject(sig, "%s | text=%r base=%d spans=%s width=%d tab=%d -> lines=%s" % (
-            v, text, c["base"], c["spans"], c["width"], c["tab"],
-            [("".join(chr(x[0]) for x in l["chars"]), [[x[2], x[3]] for x in l["chars"]]) for l in rec["lines"]]),
+        chk.reject(sig, "%s | text=%r base=%d/%d spans=%s width=%d tab=%d delivery=%s -> lines=%s" % (
+            v, text, c["base"], c["lbase"], c["spans"], c["width"], c["tab"], c.get("how") or "plain",
+            [("".join(chr(x[0]) for x in l["chars"]), [x[2:] for x in l["chars"]]) for l in rec["lines"]]),
             dict(c, observed=rec["lines"], exc=rec["exc"]))
     if chk.replay_only:
         print("replay verdict:", verdicts)
